@@ -121,7 +121,7 @@ def gen_random(rng):
     sps = type_variants(rng) if rng.random() < 0.25 else [rand_sp(rng) for _ in range(rng.randint(1, 3))]
     return {"kind": "random", "sps": [typed(s) for s in sps], "pseed": rng.randint(0, 10 ** 9),
             "len": rng.randint(4, 12), "plant": rng.random() < 0.6, "damage": rng.random() < 0.25, "prov": provenance(rng),
-            "stray": rng.random() < 0.4, "live": rng.random() < 0.2}
+            "stray": rng.random() < 0.4, "live": rng.random() < 0.2, "relcwd": rng.random() < 0.15}
 
 
 def gen_sweep(rng):
@@ -244,6 +244,20 @@ def build_ops(desc, W, real_id):
         if rng.random() < 0.3:
             yield ["Init", len(W.handles) - 1, True]
     sps = list(sps)
+    if desc.get("relcwd"):
+        # a Project object made from a path RELATIVE to the working directory, a lazy open_job through it, then the
+        # process moves somewhere else before init() (and moves again before the job is looked up)
+        a = rng.randrange(5)
+        yield ["ChDir", a]
+        yield ["NewSession", "A", rng.choice(["ctor-rel", "ctor-rel", "rel-slash", "get-rel", "init-rel"])]
+        nsess += 1
+        for sp in rng.sample(sps, rng.randint(1, len(sps))):
+            yield ["OpenSp", nsess - 1, sp]
+            yield ["ChDir", (a + rng.randint(1, 4)) % 5]
+            wsops.settle()
+            yield ["Init", len(W.handles) - 1, False]
+            if rng.random() < 0.5:
+                yield ["Ids", nsess - 1]
     if desc.get("live"):
         # a state point built from values of another job's document: open_job is handed LIVE collections (nested in a
         # plain dict, also inside a list); the document changes in place before the job is initialised
